@@ -474,7 +474,8 @@ class UfhController(Parent, DeviceHeat):  # UFC (02):
         elif msg.code == Code._22C9:  # setpoint_bounds
             # .I --- 02:017205 --:------ 02:017205 22C9 024 00076C0A280101076C0A28010...
             # .I --- 02:017205 --:------ 02:017205 22C9 006 04076C0A2801
-            self._setpoints = msg
+            if isinstance(msg.payload, list):  # the circuit setpoints (not a single dict)
+                self._setpoints = msg
 
         elif msg.code == Code._3150:  # heat_demands
             if isinstance(msg.payload, list):  # the circuit demands
